@@ -384,8 +384,11 @@ class ReplaceMatch(ast.NodeTransformer):
                 value = self.visit(c.pattern.value)
                 # Optional guard
                 if c.guard:
-                    # In Verilog, this could be an 'if' inside the case body or ignored
-                    # depending on your semantics
+                    # `value: if (guard) body` is only right when nothing can match after a failed
+                    # guard: Python would go on to the later cases and to `case _`
+                    later = node.cases[node.cases.index(c)+1:]
+                    if any(not isinstance(l.pattern, ast.MatchValue) or ast.dump(l.pattern.value) == ast.dump(c.pattern.value) for l in later):
+                        raise NotImplementedError('Guarded case followed by a case that could still match: ' + ast.unparse(c.pattern))
                     guard_expr = self.visit(c.guard)
                     body = [VerilogIf(guard_expr, body, [])]
                 cases.append(VerilogCaseItem(value, body))
